@@ -236,6 +236,12 @@ func dependsOnField(v ssa.Value, f *types.Var) bool {
 func runC03SendBody(p *Prog, r *Report) {
 	fixed := p.Func("writeBodyFixedSize")
 	chunked := p.Func("writeBodyChunked")
+	hdrWrite := p.Func("(*ResponseHeader).Write")
+	wbs := p.Func("(*Response).writeBodyStream")
+	if hdrWrite == nil || wbs == nil {
+		r.Undecided("R3", "(*ResponseHeader).Write / (*Response).writeBodyStream", "not found")
+		return
+	}
 	n := 0
 	for _, spec := range []string{"(*Response).Write", "(*Response).writeBodyStream"} {
 		fn := p.Func(spec)
@@ -244,17 +250,36 @@ func runC03SendBody(p *Prog, r *Report) {
 			continue
 		}
 		var sendParam string
+		var wprm *ssa.Parameter
 		for _, prm := range fn.Params {
 			if isBool(prm.Type()) {
 				sendParam = "param:" + prm.Name()
 			}
+			if strings.HasSuffix(prm.Type().String(), "bufio.Writer") {
+				wprm = prm
+			}
+		}
+		if wprm == nil {
+			r.Undecided("R3", spec, "no *bufio.Writer parameter")
+			continue
 		}
 		allCalls(fn, func(b *ssa.BasicBlock, c ssa.CallInstruction) {
 			f := c.Common().StaticCallee()
 			if f == nil {
 				return
 			}
-			emits := f == fixed || f == chunked || (recvTypeName(f) == "Writer" && f.Name() == "Write" && f.Pkg != nil && f.Pkg.Pkg.Path() == "bufio")
+			// by role: every call that is handed the connection writer emits bytes of the message; the only ones that
+			// belong to the head are the header serialiser and Flush, and writeBodyStream receives the predicate itself.
+			// Everything else (body copy, chunk writer, trailer section of a chunked body) is body emission.
+			emits := f == fixed || f == chunked
+			for _, a := range c.Common().Args {
+				if wprm != nil && a == ssa.Value(wprm) {
+					emits = true
+				}
+			}
+			if f == hdrWrite || f == wbs || (recvTypeName(f) == "Writer" && f.Name() == "Flush") {
+				emits = false
+			}
 			if !emits {
 				return
 			}
